@@ -1066,7 +1066,11 @@ INST_AUTHS = [{'username': 'admin', 'password': 's3cret'}, [{'u': 1}, {'token': 
 
 def run_pairs(ctx, ncases, nops):
     rng = ctx.rng
-    profiles = [('C04', c04.PROFILE), ('C05', c05.PROFILE), ('C06', c06.PROFILE)]
+    rooms_profile = {'weights': {'open': 2, 'connect': 6, 'client_disconnect': 2, 'event': 2, 'ack': 0, 'emit': 5, 'emit_cb': 1,
+                                 'api_disconnect': 2, 'enter': 6, 'leave': 5, 'close': 2, 'rooms': 3, 'lost': 2,
+                                 'partial_binary': 0, 'session': 1},
+                     'connect_outcomes': {'accept': 8, 'false': 1, 'refuse': 1, 'raise': 0}}
+    profiles = [('C04', c04.PROFILE), ('C05', c05.PROFILE), ('C06', c06.PROFILE), ('rooms', rooms_profile)]
     combos = [(f, m, ro) for f in ('threading', 'asyncio') for m in ('development', 'production') for ro in (False, True)]
     evals = 0
     nontriv = set()
